@@ -45,6 +45,7 @@ type Frame struct {
 	panicsC string // "panics when" condition evaluated at entry (top frame only)
 	entry   *State
 	loopFrames map[string]*loopFrame
+	loopNexts  map[string]string // allocation counter at the entry of each cut loop
 	measures map[*Loop]string
 }
 
